@@ -157,7 +157,7 @@ class FakeCircuit:
         self.dag = FakeDag(n)
         self.origin = origin  # the object this one was copied from (identity), None for an original
 
-    def copy(self):
+    def copy(self, *args, **kwargs):  # extra arguments of a refactored caller are accepted
         return FakeCircuit(len(self.dag.nodes), origin=self)
 
     def __deepcopy__(self, memo):
@@ -474,6 +474,10 @@ def synth_update_hof(ctx, res, drv, heavy=False):
                                 fn(solver, [(s, FakeCircuit(n)) for s, n in past])
                             pop = [(s, FakeCircuit(n)) for s, n in combo]
                             recs.append(run_update_hof_case(res, lines, fn, solver, pop, f"{name}:exhaustive"))
+                            if recs[-1][5] is not None:
+                                # the case raised (already compared / reported by run_update_hof_case): its history must not be replayed at the
+                                # next depth — the replay is not under a `try` and would end run() as a harness crash, losing the report
+                                continue
                             sig = tuple((float(s), None if c is None else len(c.dag.nodes)) for s, c in solver.hof)
                             if sig not in seen and len(seen) < max_states:
                                 seen.add(sig)
@@ -636,7 +640,11 @@ def synth_adapt(ctx, res, drv):
             t = target_of(nx.path_graph(3) if n_emit == 1 else nx.cycle_graph(4))
             s = HybridEvolutionarySolver(target=t, metric=Infidelity(t), compiler=StabilizerCompiler(), solver_setting=setting)
             if s.n_emitter != n_emit:
+                # the hybrid solver takes its emitter number from the target (path on 3 vertices: 1, 4-cycle: 2 — C03's height function); a
+                # different number used to drop the case with a note only
                 res.notes.append(f"hybrid n_emitter for case is {s.n_emitter}, expected {n_emit}")
+                res.exact_break("adapt:hybrid-n_emitter", input={"kind": "adapt", "solver": kind, "n_emitter": n_emit}, impl=f"n_emitter = {s.n_emitter}",
+                                model=f"{n_emit} emitters for {'the path on 3 vertices' if n_emit == 1 else 'the 4-cycle'}")
                 continue
         steps = n_stop + 3
         seq = [[float(v) for v in s.trans_probs.values()]]
@@ -655,9 +663,11 @@ def synth_adapt(ctx, res, drv):
         orig = np.random.choice
 
         def rec_choice(a, *args, **kw):
-            if "p" in kw and not isinstance(a, int):
+            # numpy: choice(a, size=None, replace=True, p=None) — the probabilities may arrive by keyword or as the 4th positional argument
+            pr = kw["p"] if "p" in kw else (args[2] if len(args) > 2 else None)
+            if pr is not None and not isinstance(a, int):
                 seen["keys"] = [k.__name__ for k in a]
-                seen["p"] = [float(x) for x in kw["p"]]
+                seen["p"] = [float(x) for x in pr]
             return orig(a, *args, **kw)
 
         np.random.choice = rec_choice
@@ -669,6 +679,11 @@ def synth_adapt(ctx, res, drv):
         if "p" in seen:
             lines.append(f"evo.adapt nstop=1 nemit={n_emit} kind=randomize steps=0")
             recs.append(("randomize", n_emit, 1, seen["keys"], [seen["p"]]))
+        else:
+            # randomize_circuit draws its transformation with np.random.choice(list, p=table): not seeing that draw means the table is no
+            # longer observed (another generator / another call shape) and this comparison would silently disappear
+            res.exact_break("adapt:randomize-table-not-observed", input={"kind": "adapt", "solver": "randomize", "n_emitter": n_emit},
+                            impl="population_initialization drew no transformation through np.random.choice(..., p=...)", model="the randomize table is drawn from")
     for rep, (kind, n_emit, n_stop, keys, seq) in zip(drv.batch(lines), recs):
         res.evaluations += 1
         inp = {"kind": "adapt", "solver": kind, "n_emitter": n_emit, "n_stop": n_stop}
@@ -799,9 +814,11 @@ def gen_jobs(ctx, n_jobs, long_small=0):
     #  * the seed 0 — the only falsy seed (`if seed:` instead of `if seed is not None:` leaves the generators unseeded);
     #  * selection switched on with tournament_k = 0 — `tournament_selection` then hands back the very same population list, so whatever the
     #    hall of fame shares with the population is transformed in place in the next generation.
-    for solver in ("evo", "hybrid"):
+    #    (numpy's and Python's generators are seeded separately; Python's `random` is consumed only by the tournament, so the seed-0 jobs run
+    #    with selection off AND on)
+    for solver, sel in (("evo", 0), ("evo", 1), ("hybrid", 1)):
         jobs.append({"solver": solver, "graph": rng.choice(graphs3 + graphs4), "n_emitter": 1, "n_hof": rng.randrange(1, 4), "n_pop": rng.randrange(4, 8),
-                     "n_stop": rng.randrange(3, 9), "sel": rng.randrange(2), "adapt": rng.randrange(2), "k": 2, "seed": 0, "det": 1, "backend": "s",
+                     "n_stop": rng.randrange(4, 9), "sel": sel, "adapt": rng.randrange(2), "k": 2, "seed": 0, "det": 1, "backend": "s",
                      "positions": 0})
     for solver in ("evo", "evo", "hybrid"):
         jobs.append({"solver": solver, "graph": rng.choice(graphs3 + graphs4), "n_emitter": 1, "n_hof": rng.randrange(2, 5), "n_pop": rng.randrange(5, 9),
@@ -916,6 +933,11 @@ def compare_run(res, job, out, rep, fps):
             # raised while building the population, transforming, compiling or evaluating: these are parameters of the model
             # (Params.mutate / Params.metric are total), so there is nothing to compare; reproducibility of the failure is still checked
             res.count("errors", f"solve:raised-outside-model:{out['error']}")
+            # ... but the model is still asked: for the malformed configurations it predicts an error class itself (and a well-formed one
+            # raising is a violation, run_jobs_analyse); an error the model does not predict, or of another class, is a correspondence break
+            if rep["_status"] != "err" or rep.get("_err") != out["error"]:
+                res.exact_break("solve:error-stage", input=inp, impl=f"err {out['error']} before any update_hof / update_logs event of generation {logs_done}: {out.get('error_msg')}",
+                                model=rep["_raw"][:300])
             return
         if rep["_status"] != "err" or rep.get("_err") != out["error"] or int(rep.get("gen", -1)) != max(gen_fail, logs_done):
             res.exact_break("solve:error-class", input=inp, impl=f"err {out['error']} after {len(ups)} update_hof / {logs_done} update_logs calls: {out.get('error_msg')}",
@@ -1075,6 +1097,9 @@ def oracle_run(res, job, out):
             bad("solve:hof-changed-after-last-generation", "final hall of fame differs from the one after the last update_hof")
     # logs
     logs = out.get("logs") or {}
+    if "error" in logs:
+        # the worker could not read solver.logs (evoutil.run_job): the clause "the logs agree with the hall of fame" would disappear silently
+        bad("solve:logs-unreadable", f"solver.logs of a finished run cannot be read as (iteration, cost_min, cost_max, cost_mean) columns: {logs['error']}")
     if "hof" in logs and ups:
         cm = logs["hof"]["cost_min"]
         if len(cm) != len(ups) or any(abs(c - min(eu.unratio(d["s"]) for d in e["hof"])) > 1e-12 for c, e in zip(cm, ups)):
@@ -1150,6 +1175,13 @@ def run_jobs_analyse(ctx, res, drv, pool, jobs, collected):
     wit = {}
     nod = {}
     for (ji, role), out in zip(roles, outs):
+        if out is not None and "infra_error" in out and out.get("impl_error"):
+            # the worker failed inside $REPO code outside solve() (reading solver.result / hof / to_openqasm after the run, or the
+            # node-order walk): the implementation raising on a valid configuration, not an infrastructure failure
+            res.count("errors", f"worker:raises:{out['impl_error']}")
+            res.violation(f"solve:result-unreadable:{out['impl_error']}", f"reading the result of a finished run (or the transformation walk) raised: {str(out.get('infra_error'))[:200]}",
+                          input={"kind": "job", "job": out.get("job"), "role": role}, where=str(out.get("tb", ""))[-400:])
+            continue
         if out is None or "infra_error" in (out or {}):
             res.notes.append(f"infrastructure: worker failed on a job: {(out or {}).get('infra_error')}")
             res.extra["infra_failures"] = res.extra.get("infra_failures", 0) + 1
@@ -1162,10 +1194,12 @@ def run_jobs_analyse(ctx, res, drv, pool, jobs, collected):
             by_job.setdefault(ji, {})[role] = out
     # ---- per configuration: correspondence, oracle, reproducibility
     lines, recs = [], []
+    n_runs_seen = 0
     for ji, runs in by_job.items():
         job = jobs[ji]
         a = runs.get("A")
         if a is None:
+            res.count("errors", "solve:first-run-missing")  # the worker's failure is reported where it was received (infra / result-unreadable)
             continue
         res.evaluations += 1
         res.count("sizes", f"{job['solver']}:{job['graph']}")
@@ -1181,9 +1215,16 @@ def run_jobs_analyse(ctx, res, drv, pool, jobs, collected):
         for role, out in runs.items():
             oracle_run(res, job, out)
         sl = solve_line(job, a)
+        n_runs_seen += 1
         if sl is not None:
             lines.append(sl[0])
             recs.append((job, a, sl[1]))
+        elif "error" not in a:
+            # a finished run without an `init` event in its trace (population_initialization renamed / bypassed) cannot be replayed by the
+            # model: it used to be left out of the whole-run correspondence without a word
+            res.count("errors", "solve:no-init-event")
+            res.exact_break("solve:no-init-event", input={"kind": "job", "job": job}, impl="the traced run finished without a population_initialization event",
+                            model="every run starts with population_initialization")
         # reproducibility
         for role in ("A2", "B", "C"):
             o = runs.get(role)
@@ -1201,6 +1242,7 @@ def run_jobs_analyse(ctx, res, drv, pool, jobs, collected):
         ups = [e for e in (a.get("trace") or []) if e["ev"] == "update_hof"]
         if ups and any(d["o"] is not None for d in ups[-1]["hof"]):
             res.nontrivial("run", json.dumps(job, sort_keys=True))
+    common.coverage_floor(res, "whole runs replayed by the model", len(lines), n_runs_seen, what="traced runs")
     for rep, (job, a, fps) in zip(drv.batch(lines), recs):
         compare_run(res, job, a, rep, fps)
         res.branch([f"solve:{job['solver']}:sel={job['sel']}:adapt={job['adapt']}"])
@@ -1213,6 +1255,13 @@ def run_jobs_analyse(ctx, res, drv, pool, jobs, collected):
         res.evaluations += 1
         fh0 = [(d["s"], d["qasm"]) for d in w0.get("final_hof", [])]
         fh1 = [(d["s"], d["qasm"]) for d in w1.get("final_hof", [])]
+        for w in (w0, w1):
+            if "error" in w:
+                # the witness configuration is well-formed and is not among `jobs`: two runs that raise identically have equal digests and
+                # would be recorded as "identical"
+                res.violation(f"solve:raises:{w['error']}", f"solve() raised on the (well-formed) regression configuration: {str(w.get('error_msg'))[:200]}",
+                              input={"kind": "job", "job": WITNESS_JOB, "hashseed": w.get("hashseed")})
+                break
         if w0.get("digest") != w1.get("digest"):
             k, desc, cause = first_divergence(w0.get("trace") or [], w1.get("trace") or [])
             res.violation(f"repro:hashseed:{cause}",
@@ -1253,8 +1302,11 @@ def run(ctx):
     phases = {}
 
     def timed(name, f, *a, **k):
+        # every phase runs under common.impl_guard: the solver constructors, adapt_probabilities / seed / population_initialization and the
+        # SolverResult calls of the unit streams are made outside a `try`; an exception of graphiq there is reported with the phase's name
         t0 = _time.time()
-        f(*a, **k)
+        with common.impl_guard(res, name, promise=True):
+            f(*a, **k)
         phases[name] = round(_time.time() - t0, 1)
 
     try:
